@@ -1,0 +1,11 @@
+//go:build verif
+
+package goja
+
+// Spec functions for arrays (property C07).
+
+// specNonConfigurable: the stored element is a property record that may not be deleted.
+func specNonConfigurable(v Value) bool {
+	p, ok := v.(*valueProperty)
+	return ok && p != nil && !p.configurable
+}
